@@ -117,6 +117,13 @@ Definition launch_ok (l : list rstmt) : bool :=
   | _ => false
   end.
 
+Fixpoint upto_gather (b : list rstmt) : list rstmt :=
+  match b with
+  | [] => []
+  | SGatherFlush :: _ => [SGatherFlush]
+  | st :: rest => st :: upto_gather rest
+  end.
+
 Fixpoint flat_main_f (fuel : nat) (i : irs) (k : endkind) (b : list rstmt) : list mstep :=
   match fuel with O => [MsBad] | S fuel' =>
   let flat_main := flat_main_f fuel' in
@@ -126,7 +133,8 @@ Fixpoint flat_main_f (fuel : nat) (i : irs) (k : endkind) (b : list rstmt) : lis
   | SGatherFlush :: rest => flat_simple false (ir_unqueue i) ++ [MsAwaitRunners] ++ flat_main i k rest
   | SShieldAclose :: rest => flat_simple false (ir_aclose i) ++ flat_main i k rest
   | STryRun body on_kbd on_base fin :: rest =>
-      flat_main i k body
+      (* an interrupt / a failure surfaces AT the wait for the runners: what follows it in the try block is skipped *)
+      flat_main i k (match k with Graceful => body | _ => upto_gather body end)
       ++ match k with Graceful => [] | Interrupted => flat_main i k on_kbd | Failed => flat_main i k on_base end
       ++ flat_main i k fin ++ flat_main i k rest
   | SWithLock b' :: rest => flat_simple false [SWithLock b'] ++ flat_main i k rest
@@ -153,7 +161,8 @@ Fixpoint msteps_eqb (a b : list mstep) : bool :=
 Definition ref_steps (lc : lifecycle) (k : endkind) : list mstep :=
   [MsLaunch; MsPublish; MsSetRunning; MsAssertRunning; MsSwap; MsReregister; MsAwaitRunners]
   ++ match k with
-     | Graceful => []
+     | Graceful => if lc_graceful_closes lc
+                   then [MsAcloseAll; MsAwaitTasks] ++ (if lc_aclose_clears lc then [MsClearTable] else []) else []
      | Interrupted => [MsAcloseAll; MsAwaitTasks] ++ (if lc_aclose_clears lc then [MsClearTable] else [])
      | Failed => [MsAcloseAll; MsAwaitTasks] ++ (if lc_aclose_clears lc then [MsClearTable] else []) ++ [MsReraise]
      end
@@ -166,7 +175,7 @@ Definition matches (i : irs) (lc : lifecycle) : bool :=
 
 Definition lifecycle_of (i : irs) : option lifecycle :=
   let try lc := if matches i lc then Some lc else None in
-  match try (mkLC false true) with Some lc => Some lc | None =>
-  match try (mkLC true true) with Some lc => Some lc | None =>
-  match try (mkLC true false) with Some lc => Some lc | None =>
-  try (mkLC false false) end end end.
+  let fix first (l : list lifecycle) : option lifecycle :=
+    match l with [] => None | lc :: r => match try lc with Some x => Some x | None => first r end end in
+  first [mkLC false true true; mkLC false true false; mkLC true true false; mkLC true false false;
+         mkLC true true true; mkLC true false true; mkLC false false true; mkLC false false false].
